@@ -75,4 +75,23 @@ example : judgeEv [.logon 1, .begin 1, .poll 1 true, .endc 1 50 [], .send 1 "a~"
 example : judgeEv [.logon 1, .send 1 "g~ab".toList, .begin 1, .poll 1 false, .cmd 1 ['g'], .gc 1 true, .endc 1 50 [],
     .begin 2, .poll 2 true, .cmd 1 "ab".toList, .endc 2 50 []] = [Viol.idleWait 2 1] := by decide
 
+-- aborted iterations (uncaught error in a command): `abort n` closes cycle n, nobody is owed service by it, `twice` is
+-- still judged inside it, and the restarted iteration is judged in full
+example : judgeEv [.logon 1, .logon 2, .send 1 "a~b~".toList, .send 2 "x~".toList, .begin 1, .poll 1 false, .cmd 1 a, .err 1,
+    .abort 1, .begin 2, .poll 2 false, .cmd 2 ['x'], .cmd 1 b, .endc 2 50 []] = [] := by decide
+example : judgeEv [.logon 1, .send 1 "a~b~".toList, .begin 1, .poll 1 false, .cmd 1 a, .cmd 1 b, .err 1, .abort 1]
+    = [Viol.twice 1 1] := by decide
+example : judgeEv [.logon 1, .logon 2, .send 1 "a~".toList, .send 2 "x~".toList, .begin 1, .poll 1 false, .cmd 1 a, .err 1,
+    .abort 1, .begin 2, .poll 2 false, .endc 2 50 []] = [Viol.starved 2 2] := by decide
+example : judgeEv [.begin 1, .abort 2] = [Viol.malformed "abort without begin"] := by decide
+-- overtaken: after the abort the same user is served again although user 2 has been waiting since the first `begin`
+example : judgeEv [.logon 1, .logon 2, .send 1 "a~b~".toList, .send 2 "x~".toList, .begin 1, .poll 1 false, .cmd 1 a, .err 1,
+    .abort 1, .begin 2, .poll 2 false, .cmd 1 b, .cmd 2 ['x'], .endc 2 50 []] = [Viol.overtaken 1 2 2] := by decide
+-- not overtaken: user 2 was not waiting (no complete command at the first `begin`; its line arrived later)
+example : judgeEv [.logon 1, .logon 2, .send 1 "a~b~".toList, .send 2 "x".toList, .begin 1, .poll 1 false, .cmd 1 a, .err 1,
+    .abort 1, .begin 2, .poll 2 false, .cmd 1 b, .endc 2 50 []] = [] := by decide
+-- not overtaken: the waiting user has left (kicked) before the second service
+example : judgeEv [.logon 1, .logon 2, .send 1 "a~b~".toList, .send 2 "x~".toList, .begin 1, .poll 1 false, .cmd 1 a,
+    .kick 1 2 true, .err 1, .abort 1, .begin 2, .poll 2 false, .cmd 1 b, .endc 2 50 []] = [] := by decide
+
 end NV.C12
